@@ -61,6 +61,12 @@ impl Router {
             config.state.len()
         );
 
+        #[cfg(iwe_verif)]
+        {
+            verif::install_file_sink_from_env();
+            verif::at(verif::Point::RouterNew);
+        }
+
         let router = Self {
             server: Arc::new(Server::new(config)),
             sender,
